@@ -3,8 +3,10 @@
 from __future__ import annotations
 
 import asyncio
+import contextlib
 import random
 
+from vlib import knxip_gen as g
 from vlib.peers_tunnel import Gateway, make_cemi, tag_of
 from vlib.vloop import Deadlock, LoopBudget, new_loop
 from xknx import XKNX
@@ -410,10 +412,14 @@ def judge(injections, acks, cbs):
 
 
 def judge_history(ctx, kind, profile, ops, sample=False, route_back=False, gw_route_back=False, burst=None, burst_seed=0,
-                  auto_reconnect=True, channel_policy="increasing"):
+                  auto_reconnect=True, channel_policy="increasing", debug_logging=False):
     ctx.ev()
-    injections, acks, cbs, err, log, excs = run_history(kind, ops, route_back, gw_route_back, burst, burst_seed, auto_reconnect,
-                                                        channel_policy)
+    # the logging configuration is a workload dimension: with the xknx loggers at DEBUG the same rules apply
+    with (g.debug_logging(ctx) if debug_logging else contextlib.nullcontext()):
+        injections, acks, cbs, err, log, excs = run_history(kind, ops, route_back, gw_route_back, burst, burst_seed, auto_reconnect,
+                                                            channel_policy)
+    if debug_logging:
+        ctx.count("histories_with_debug_logging")
     if err is not None:
         ctx.inconclusive(f"{kind} history did not finish: {err}")
         return
@@ -493,7 +499,7 @@ def judge_history(ctx, kind, profile, ops, sample=False, route_back=False, gw_ro
         short = [(inj["epoch"], inj["c"], inj["verdict"]) for inj in injections]
         ctx.violation(f"{kind}-{mech}", {"endpoint": kind, "profile": profile, "ops": ops, "detail": detail,
                                           "route_back": route_back, "gw_route_back": gw_route_back, "burst": burst, "burst_seed": burst_seed, "auto_reconnect": auto_reconnect,
-                                          "channel_policy": channel_policy,
+                                          "channel_policy": channel_policy, "debug_logging": debug_logging,
                                           "frames(epoch,counter,verdict)": short[:400]},
                       f"{kind}: {mech}: {str(detail)[:400]}")
 
@@ -501,14 +507,14 @@ def judge_history(ctx, kind, profile, ops, sample=False, route_back=False, gw_ro
 def run(ctx):
     n = ctx.scale(420, 200000)
     ctx.rule = (f"{n} generated histories (profiles lossy/adversarial/wrap/mixed, 20-80 ops, gaps around the 2 s timer) spread over "
-                f"{KINDS} x client route_back on/off x server data endpoint as address / route-back HPAI x (no burst | server frames in one burst with every ConnectResponse: same callback or call_soon); distinct = (endpoint, string of reference verdicts with the first frame of each connection marked)")
+                f"{KINDS} x client route_back on/off x server data endpoint as address / route-back HPAI x (no burst | server frames in one burst with every ConnectResponse: same callback or call_soon) x xknx loggers default / DEBUG with a recording handler (every fifth block of 4); distinct = (endpoint, string of reference verdicts with the first frame of each connection marked)")
     ctx.require("frames_injected", "acks_observed", "frames_passed_up",
                 *(f"verdict_{v}_{k}" for v in "ERO" for k in KINDS),
                 "wrap_E", "wrap_R", "first_after_reconnect_E", "first_after_reconnect_O", "connection_epochs",
                 "first_after_reconnect_tunnel_rb", "first_after_reconnect_tunnel_hpai", "first_after_reconnect_devconn_rb",
                 "first_after_reconnect_devconn_hpai", "burst_frames_on_first_connect", "burst_frames_on_reconnect",
                 "burst_frames_rb", "burst_frames_hpai", "histories_tunnel_without_auto_reconnect", "histories_channel_ids_constant", "histories_channel_ids_recycled",
-                "frames_after_user_cycle_tunnel", "frames_after_user_cycle_devconn", "frames_after_user_cycle_devmgmt",
+                "histories_with_debug_logging", "frames_after_user_cycle_tunnel", "frames_after_user_cycle_devconn", "frames_after_user_cycle_devmgmt",
                 "frames_after_user_connect_again_tunnel", "frames_after_redundant_start_devmgmt", "frames_after_heartbeat_restart_tunnel",
                 *(f"repeat_255_at_expected_0_{w}_{k}" for w in ("on_fresh_connection", "after_a_lap") for k in KINDS),
                 *(f"burst_frames_{v}_{k}" for v in "ERO" for k in KINDS),
@@ -527,7 +533,8 @@ def run(ctx):
         auto_reconnect = not (kind == "tunnel" and (i // 3) % 3 == 2)
         channel_policy = ("increasing", "constant", "recycled")[(i // 5) % 3]
         judge_history(ctx, kind, profile, ops, sample=i < 6, route_back=route_back, gw_route_back=gw_route_back,
-                      burst=burst, burst_seed=i, auto_reconnect=auto_reconnect, channel_policy=channel_policy)
+                      burst=burst, burst_seed=i, auto_reconnect=auto_reconnect, channel_policy=channel_policy,
+                      debug_logging=(i // 4) % 5 == 3)
 
 
 def replay(ctx, witness):
@@ -535,6 +542,7 @@ def replay(ctx, witness):
     judge_history(ctx, witness["endpoint"], witness["profile"], witness["ops"],
                   route_back=bool(witness.get("route_back")), gw_route_back=bool(witness.get("gw_route_back")),
                   burst=witness.get("burst"), burst_seed=witness.get("burst_seed", 0),
-                  auto_reconnect=witness.get("auto_reconnect", True), channel_policy=witness.get("channel_policy", "increasing"))
+                  auto_reconnect=witness.get("auto_reconnect", True), channel_policy=witness.get("channel_policy", "increasing"),
+                  debug_logging=bool(witness.get("debug_logging")))
     ctx.distinct("replay")
     ctx.distinct("replay2")
